@@ -35,6 +35,8 @@ struct P<'a> {
     depth: usize,
     /// a `>=`/`>` style split pending: when Some, the current token is treated as this symbol first
     split: Option<&'static str>,
+    /// whether `...` is available in each enclosing function (the main chunk is a vararg function)
+    vararg_scopes: Vec<bool>,
 }
 
 type R<T> = Result<T, ParseError>;
@@ -580,7 +582,10 @@ impl<'a> P<'a> {
             self.census.types += 1;
             self.type_spans.push((start, self.prev_end()));
         }
-        let body = self.parse_block()?;
+        self.vararg_scopes.push(vararg);
+        let body = self.parse_block();
+        self.vararg_scopes.pop();
+        let body = body?;
         self.expect_kw("end")?;
         self.leave();
         Ok(FuncBody {
@@ -813,6 +818,9 @@ impl<'a> P<'a> {
             }
             Tok::InterpSimple(_) | Tok::InterpBegin(_) => self.parse_interp(),
             Tok::Sym("...") => {
+                if self.vararg_scopes.last() == Some(&false) {
+                    return self.err("cannot use `...` outside a vararg function");
+                }
                 self.advance();
                 Ok(Expr::Vararg)
             }
@@ -1339,6 +1347,7 @@ pub fn parse(src: &[u8], mode: Mode) -> Result<Parsed, ParseError> {
         census: Census::default(),
         depth: 0,
         split: None,
+        vararg_scopes: vec![true],
     };
     let _ = &p.split;
     let block = p.parse_block()?;
